@@ -142,3 +142,60 @@ def collect_effects(a, blocks, track):
                 continue
             eff.setdefault(b, []).append((cn, u[1], flowm.show(u[2]), u[2], s['ln']))
     return eff
+
+
+def propagate_from(a, start_blocks, stop_blocks, effects, cut_blocks=(), stop_edges=()):
+    """Balance states for every acyclic path from start_blocks to (and including) stop_blocks or across stop_edges.
+    Back edges are not followed (each loop body is traversed at most once); blocks in cut_blocks (error exits) are
+    not entered.  Returns {stop: set(states)} keyed by stop block or ('edge', a, b)."""
+    cfg = a.cfg
+    back = set(cfg.back_edges())
+    stop_blocks = set(stop_blocks)
+    stop_edges = set(stop_edges)
+    cut_blocks = set(cut_blocks)
+    region = cfg.reach(start_blocks, cut_blocks=cut_blocks, cut_edges=back | stop_edges, stop_blocks=stop_blocks)
+    for (x, y) in stop_edges:
+        pass
+    indeg = Counter()
+    succ = {}
+    for b in region:
+        if b in stop_blocks:
+            succ[b] = []
+            continue
+        ss = [s for s in cfg.succ[b] if s in region and (b, s) not in back and (b, s) not in stop_edges]
+        succ[b] = ss
+        for s in ss:
+            indeg[s] += 1
+    order = []
+    work = [b for b in region if indeg[b] == 0]
+    while work:
+        b = work.pop()
+        order.append(b)
+        for s in succ[b]:
+            indeg[s] -= 1
+            if indeg[s] == 0:
+                work.append(s)
+    states = {b: {frozenset()} for b in start_blocks if b in region}
+    out = {}
+    for b in order:
+        cur = states.get(b)
+        if not cur:
+            continue
+        eff = effects.get(b, [])
+        if eff:
+            new = set()
+            for st in cur:
+                c = Counter(dict(st))
+                for e in eff:
+                    c[(e[0], e[2], e[1])] += 1
+                new.add(frozenset(c.items()))
+            cur = new
+        if b in stop_blocks:
+            out.setdefault(b, set()).update(cur)
+            continue
+        for s in cfg.succ[b]:
+            if (b, s) in stop_edges:
+                out.setdefault(('edge', b, s), set()).update(cur)
+        for s in succ[b]:
+            states.setdefault(s, set()).update(cur)
+    return out
